@@ -153,6 +153,36 @@ func partialScopeEval(env Env, ent types.Value, in ast.IsScopeNode) (bool, bool)
 	return true, result
 }
 
+// containsVariable reports whether v is, or has nested anywhere inside it, a variable.
+func containsVariable(v types.Value) bool {
+	switch t := v.(type) {
+	case types.EntityUID:
+		return IsVariable(t)
+	case types.Record:
+		for vv := range t.Values() {
+			if containsVariable(vv) {
+				return true
+			}
+		}
+	case types.Set:
+		for vv := range t.All() {
+			if containsVariable(vv) {
+				return true
+			}
+		}
+	}
+	return false
+}
+
+// residualNode returns the node to keep in a residual expression: the partially evaluated node, unless that is a value
+// which still contains a variable, in which case the original node is kept.
+func residualNode(orig, partial ast.IsNode) ast.IsNode {
+	if v, ok := partial.(ast.NodeValue); ok && containsVariable(v.Value) {
+		return orig
+	}
+	return partial
+}
+
 var errVariable = fmt.Errorf("variable")
 var errIgnore = fmt.Errorf("ignore")
 
@@ -164,18 +194,20 @@ func tryPartial(env Env, nodes []ast.IsNode,
 	var values []types.Value
 	ok := true
 	for i, n := range nodes {
-		n, err := partial(env, n)
+		pn, err := partial(env, n)
 		if errors.Is(err, errVariable) {
 			ok = false
 			continue
 		} else if err != nil {
 			return nil, err
 		}
-		nodes[i] = n
+		// A value that still has a variable nested inside it can be used to evaluate this node now, but it must
+		// not replace the child in a residual: the variable would be frozen in and never substituted.
+		nodes[i] = residualNode(n, pn)
 		if !ok {
 			continue
 		}
-		if v, vok := n.(ast.NodeValue); vok {
+		if v, vok := pn.(ast.NodeValue); vok {
 			values = append(values, v.Value)
 			continue
 		}
@@ -448,7 +480,7 @@ func partialIfThenElse(env Env, v ast.NodeTypeIfThenElse) (ast.IsNode, error) {
 	} else if elseErr != nil && !errors.Is(elseErr, errVariable) {
 		elseNode = extError(elseErr)
 	}
-	return ast.NodeTypeIfThenElse{If: ifNode, Then: thenNode, Else: elseNode}, nil
+	return ast.NodeTypeIfThenElse{If: residualNode(v.If, ifNode), Then: residualNode(v.Then, thenNode), Else: residualNode(v.Else, elseNode)}, nil
 }
 
 func partialAnd(env Env, v ast.NodeTypeAnd) (ast.IsNode, error) {
@@ -474,7 +506,7 @@ func partialAnd(env Env, v ast.NodeTypeAnd) (ast.IsNode, error) {
 	} else if rightErr != nil && !errors.Is(rightErr, errVariable) {
 		right = extError(rightErr)
 	}
-	return ast.NodeTypeAnd{BinaryNode: ast.BinaryNode{Left: left, Right: right}}, nil
+	return ast.NodeTypeAnd{BinaryNode: ast.BinaryNode{Left: residualNode(v.Left, left), Right: residualNode(v.Right, right)}}, nil
 }
 
 func partialOr(env Env, v ast.NodeTypeOr) (ast.IsNode, error) {
@@ -500,7 +532,7 @@ func partialOr(env Env, v ast.NodeTypeOr) (ast.IsNode, error) {
 	} else if rightErr != nil && !errors.Is(rightErr, errVariable) {
 		right = extError(rightErr)
 	}
-	return ast.NodeTypeOr{BinaryNode: ast.BinaryNode{Left: left, Right: right}}, nil
+	return ast.NodeTypeOr{BinaryNode: ast.BinaryNode{Left: residualNode(v.Left, left), Right: residualNode(v.Right, right)}}, nil
 }
 
 const partialErrorName = "__cedar::partialError"
